@@ -110,13 +110,6 @@ def specFind (t : Nat) : List Tag → Nat → Option (Nat × Nat)
   | [], _ => none
   | x :: xs, off => if x.typeNo = t then some (off + 8, x.body.length) else specFind t xs (off + (encTag x).length)
 
-/-- the block after the first memory map's first `k` entries had their type normalised -/
-def normFirst (k : Nat) : List Tag → List Tag
-  | [] => []
-  | .mmap esz ver ents :: rest =>
-    .mmap esz ver ((ents.take k).map (fun e => { e with ty := normType e.ty }) ++ ents.drop k) :: rest
-  | x :: rest => x :: normFirst k rest
-
 /-- why the region lists differ: only in the type of entries encoded with type = memUnknown? -/
 def regionFeature (want got : List Region) (ents : List MemEntry) : String :=
   if want.length = got.length ∧
